@@ -184,6 +184,50 @@ func c20Gen(r *rng.Rand, i int, tier string) interface{} {
 			in.Limit = 1000
 		}
 	}
+	// the Epoch-bound x LIMIT stream: a single Epoch bound (mid-interval or on the grid, so that the scan reads a
+	// slot the filter then drops) with a LIMIT smaller than the number of matching rows: LIMIT must cut the
+	// FILTERED rows, not the scanned ones
+	if r.Chance(16) {
+		op := []string{">=", ">=", ">=", ">", "<=", "<", "between"}[r.Intn(7)]
+		i := r.Intn(nrows)
+		if (op == ">=" || op == ">" || op == "between") && nrows > 2 {
+			i = r.Intn(nrows - 2) // leave several rows above a lower bound
+		}
+		off := []int64{0, tfs * 1e9 / 2, 1e9, tfs*1e9 - 1e9}[r.Intn(4)]
+		if op == "<=" && off == 0 {
+			off = tfs * 1e9 / 2 // Epoch <= (a bar's time) is C19's finding epoch-inclusive-upper-on-bar
+		}
+		mkLit := func(ns int64) c19Lit {
+			if r.Bool() {
+				return c19Lit{K: "int", I: ns}
+			}
+			f := 0
+			for j := len(c19FmtUnit) - 1; j >= 0; j-- {
+				if ns%c19FmtUnit[j] == 0 {
+					f = j
+					break
+				}
+			}
+			return c19Lit{K: "time", I: ns, Fmt: f}
+		}
+		p := c19Pred{Col: "Epoch", Op: op, L: mkLit(in.Rows[i].Epoch*1e9 + off)}
+		if op == "between" {
+			h := mkLit(in.Rows[nrows-1].Epoch*1e9 + tfs*1e9/2)
+			p.H = &h
+		}
+		in.Preds = []c19Pred{p}
+		c19q := &c19In{TF: in.TF, Cols: in.Cols, Rows: in.Rows, Preds: in.Preds}
+		matches := 0
+		for _, row := range in.Rows {
+			if c19RowMatches(c19q, row, map[string]int{}) {
+				matches++
+			}
+		}
+		in.Limit = 1
+		if matches > 2 {
+			in.Limit = 1 + r.Intn(matches-1)
+		}
+	}
 	// INSERT INTO
 	if r.Chance(40) {
 		ins := &c20Ins{}
